@@ -363,6 +363,9 @@ TEXTS = [
     ('regex_bait_yaql', 'version: "2.0"\nwf:\n  tasks:\n    t:\n      action: std.noop\n      publish:\n        a: "' + '<% ' * 3000 + '"\n'),
     ('regex_bait_jinja', 'version: "2.0"\nwf:\n  tasks:\n    t:\n      action: std.noop\n      publish:\n        a: "' + '{{ ' * 3000 + '"\n'),
     ('regex_bait_next', 'version: "2.0"\nwf:\n  tasks:\n    t:\n      action: std.noop\n      on-success: "' + 'a' * 3000 + ' ' + 'b' * 3000 + '=' + '(' * 500 + '"\n    ' + 'a' * 10 + ': {}\n'),
+    ('task_dash_name_scalar', 'version: "2.0"\nwf:\n  tasks:\n    a-b: 5\n'),
+    ('task_dash_name_list', 'version: "2.0"\nwf:\n  tasks:\n    a-b: [1]\n    t:\n      action: std.noop\n'),
+    ('wb_version_float', 'version: 2.0\nname: wb\nworkflows:\n  wf:\n    tasks:\n      t:\n        action: std.noop\n'),
     ('wb_name_only', 'version: "2.0"\nname: wb\n'),
     ('wb_workflows_list', 'version: "2.0"\nname: wb\nworkflows:\n- a\n'),
     ('wb_quoted_section', 'version: "2.0"\nname: wb\n"workflows":\n  wf:\n    tasks:\n      t:\n        action: std.noop\n'),
